@@ -1,4 +1,76 @@
 import EaselModel.Core.Proto
-/-! Line-protocol driver for the C10 model (stub: answers bad-op until the model lands). -/
-open EaselModel.Proto
-def main : IO Unit := runDriver () (fun s _ => (s, "bad-op"))
+import EaselModel.Random.Model
+import EaselModel.Dist.FloatInst
+import EaselModel.Generated.Dist
+/-! Line-protocol driver for the C10 model: runs the TRANSLATED functions at `Float`.
+    `f fn=<name> a=<bits>,<bits>,…`            → `ok <bits>`
+    `f2 fn=<g>,<f> a=<x>,<params…>`             → `ok <bits of g(f(x,params),params)>`
+    `sample fn=<name> seed=<n> k=<draws> a=…`  → `ok <bits>,…` (k successive samples from a fresh MT19937 generator) -/
+open EaselModel EaselModel.Proto EaselModel.Random EaselModel.Dist
+
+def hex64 (x : UInt64) : String :=
+  let s := (Nat.toDigits 16 x.toNat)
+  String.ofList (List.replicate (16 - s.length) '0' ++ s)
+
+def parseBits (w : String) : Option Float :=
+  (w.toList.foldl (fun acc c => acc.bind fun a => (hexVal c).map fun d => a * 16 + d) (some 0)).map
+    fun n => Float.ofBits (UInt64.ofNat n)
+
+def parseBitsList (s : String) : Option (List Float) :=
+  if s == "-" then some [] else (s.splitOn ",").mapM parseBits
+
+def fuel : Nat := 1000000
+
+def sampleLoop (name : String) (args : List Float) : Nat → Rng → List String → Option (List String)
+  | 0, _, acc => some acc.reverse
+  | k+1, r, acc =>
+    match r.uniformPositive fuel with
+    | none => none
+    | some (x, r') =>
+      match Gen.dispatch name ((Float.ofNat x / 4294967296.0) :: args) with
+      | none => none
+      | some v => sampleLoop name args k r' (hex64 v.toBits :: acc)
+
+def uniLoop : Nat → Rng → List String → Option (List String)
+  | 0, _, acc => some acc.reverse
+  | k+1, r, acc =>
+    match r.uniformPositive fuel with
+    | none => none
+    | some (x, r') => uniLoop k r' (hex64 (Float.ofNat x / 4294967296.0).toBits :: acc)
+
+def step (s : Unit) (line : String) : Unit × String :=
+  let ws := words line
+  match ws with
+  | "f" :: _ =>
+    match arg? ws "fn", (arg? ws "a").bind parseBitsList with
+    | some fn, some a =>
+      match Gen.dispatch fn a with
+      | some v => (s, s!"ok {hex64 v.toBits}")
+      | none => (s, "bad-op")
+    | _, _ => (s, "bad-op")
+  | "f2" :: _ =>
+    match (arg? ws "fn").map (·.splitOn ","), (arg? ws "a").bind parseBitsList with
+    | some [g, f], some (x :: ps) =>
+      match (Gen.dispatch f (x :: ps)).bind fun r => Gen.dispatch g (r :: ps) with
+      | some v => (s, s!"ok {hex64 v.toBits}")
+      | none => (s, "bad-op")
+    | _, _ => (s, "bad-op")
+  | "unipos" :: _ =>
+    match argNat? ws "seed", argNat? ws "k" with
+    | some sd, some k =>
+      if sd = 0 then (s, "bad-op") else
+      match uniLoop k (Rng.create .mersenne (UInt32.ofNat sd)) [] with
+      | some vs => (s, "ok " ++ ",".intercalate vs)
+      | none => (s, "bad-op")
+    | _, _ => (s, "bad-op")
+  | "sample" :: _ =>
+    match arg? ws "fn", (arg? ws "a").bind parseBitsList, argNat? ws "seed", argNat? ws "k" with
+    | some fn, some a, some sd, some k =>
+      if sd = 0 then (s, "bad-op") else
+      match sampleLoop fn a k (Rng.create .mersenne (UInt32.ofNat sd)) [] with
+      | some vs => (s, "ok " ++ ",".intercalate vs)
+      | none => (s, "bad-op")
+    | _, _, _, _ => (s, "bad-op")
+  | _ => (s, "bad-op")
+
+def main : IO Unit := runDriver () step
